@@ -110,7 +110,7 @@ func Gen(t *rapid.T, cfg Config) World {
 				rv.Deprecation = &struct {
 					Reason string `json:"reason"`
 					Link   string `json:"link"`
-				}{Reason: "deprecated " + v + " of r" + fmt.Sprint(k), Link: "https://example.com/why/" + v}
+				}{Reason: "deprecated " + v + " of r" + fmt.Sprint(k) + rapid.SampledFrom([]string{"", "", "\n", "  ", "\n\nsee the link\n"}).Draw(t, "reasontail"), Link: "https://example.com/why/" + v}
 			}
 			rp.Versions = append(rp.Versions, rv)
 		}
